@@ -20,6 +20,40 @@ EXHAUSTIVE = ["the 2 x 4 x 2 (G2) and 2 x 2 (G1) selection cells (required, see 
 MIN_EVALS = {"quick": 5000, "thorough": 300000}
 
 
+def sswu_special_inputs(g):
+    """inputs t for which an intermediate of the SSWU computation takes a special value (0, +-1, a cube root of unity):
+    s = Z t^2 in {+-1}; s^2+s in {0, +-1}; 1 + s^2 + s = 0; the x-denominator -A'(s^2+s) in {+-1, w, w^2} (its cube is 1).
+    Constructed by solving the quadratics; only those with a square root in the field exist."""
+    f = FQ if g == 1 else FQ2
+    iso, Z = (RF.ISO1, RF.Z1) if g == 1 else (RF.ISO2, RF.Z2)
+    one, two = f.one, f.small(2)
+    om = pow(2, (Q - 1) // 3, Q)
+    k = 3
+    while om == 1:
+        om = pow(k, (Q - 1) // 3, Q)
+        k += 1
+    om = f.small(om) if g == 1 else (om, 0)
+    svals = [one, f.neg(one)]
+    targets = [f.zero, one, f.neg(one)]                       # s^2 + s = v
+    ainv = f.inv(f.neg(iso.a))
+    for v in (one, f.neg(one), om, f.mul(om, om)):            # -A'(s^2+s) = v
+        targets.append(f.mul(v, ainv))
+    for v in targets:
+        disc = f.sqrt(f.add(one, f.mul(f.small(4), v)))       # s = (-1 +- sqrt(1+4v))/2
+        if disc is None:
+            continue
+        for sg in (disc, f.neg(disc)):
+            svals.append(f.mul(f.sub(sg, one), f.inv(two)))
+    out = []
+    for sv in svals:
+        if f.is_zero(sv):
+            continue
+        t = f.sqrt(f.mul(sv, f.inv(Z)))
+        if t is not None:
+            out += [f.norm(t), f.norm(f.neg(t))]
+    return out
+
+
 def plan(tier, seed):
     shards, no = [], 0
     q = tier == "quick"
@@ -40,6 +74,7 @@ def run_shard(shard, tier, seed, wd, res):
     if part == "special":
         from props.c14 import exceptional_inputs
         vals = [f.zero, f.one, f.neg(f.one)] + [f.small(k) for k in range(2, 12)] + [f.neg(f.small(k)) for k in range(2, 6)] + exceptional_inputs(g)
+        vals += sswu_special_inputs(g)
         if g == 2:
             for a in (1, 2, Q - 1, (Q - 1) // 2, rng.randrange(Q)):
                 vals += [(a, 0), (0, a), (a, a), (a, Q - a)]
